@@ -6,6 +6,8 @@
    nested scanner of every quoted attribute expression), parse.Expr ([soy_expr]), and soy.ParseGlobals,
    which calls parse.Expr once per line.  The models describe /repo after 5b2986c (parseSwitch) and
    8031664 (parse.Expr drains). *)
+(* source tie by translation: the lemmas of these files are obligations of this property *)
+From Soy Require Import Proofs.SourceTieParser.
 From Soy Require Import Model.Bytes Model.Ast Model.Token Model.ExprParser Model.Parser.
 From Soy Require Import Generated.Tables Proofs.ParserMeasure Proofs.ParserProofs.
 Open Scope N_scope.
